@@ -28,7 +28,10 @@ def main():
     ap.add_argument('--no-build', action='store_true', help='(development) skip lake build')
     args = ap.parse_args()
     prop = args.prop.upper()
-    seed = int(os.environ.get('VERIF_SEED', '0'))
+    _sv = (os.environ.get('VERIF_SEED') or '0').strip()
+    try: seed = abs(int(_sv))                       # any integer; a negative one is used by magnitude
+    except ValueError:                              # anything else: a stable hash of the text, so the run is still reproducible
+        import zlib; seed = zlib.crc32(_sv.encode())
     t0 = time.time()
     try:
         H = importlib.import_module(f'harness.{prop.lower()}')
